@@ -20,6 +20,37 @@ CLAIMED = {
              'pools/conn.py; entries unbounded. Outside: negative entries, max_*_conn_override, >3 connectors per side.',
         technique=TECH+'solver-decided set equalities over unbounded integer matrices',
         ref='DESIGN.md section 4 (C09)'),
+    'C07': dict(
+        level='model_checking',
+        text='PARTIAL. Connection variables on every code path of every registered encoder x imputer: a vector of n+e '
+             'unbounded symbolic integers through the real manager.get_matrix (the C10 exploration); the activeness of a '
+             'corrected vector must not depend on the raw vector it came from, must equal the activeness listed by '
+             'get_all_design_vectors, inactive entries must be 0. AssignmentManagerBase._correct_is_active summarised on its '
+             'own. Decode without materialising vs enumeration: for every real ApplyIterSpec of the complete encoder on the '
+             'DSG templates, idx in Z symbolic: (idx in spec) <=> idx in set(iter(spec)). Canonical inactive value: '
+             '_get_inactive_value = (lo+hi)/2 in [lo,hi] for symbolic bounds.',
+        note='Trusted: z3, symx, spec/conn.py. One known finding (D1: eager direct-hit activeness) is listed in '
+             'known_findings.json and reported as KNOWN-FINDING. Not decided: that selection-choice and design-variable-node '
+             'activeness agree between enumeration, create=True and create=False on whole graphs (no symbolic input).',
+        technique=TECH+'symbolic connection vectors through every encoder; symbolic combination index through ApplyIterSpec',
+        ref='DESIGN.md section 4 (C07)'),
+    'C10': dict(
+        level='model_checking',
+        text='Bounded symbolic execution of the decode path of every registered connection encoder x imputer (eager, lazy, '
+             'enumerating, pattern): a vector of n+e fresh unbounded symbolic integers (n declared variables <= 6, e in 0..2 '
+             'surplus entries) through the real manager.get_matrix per (settings, existence pattern with >= 1 valid matrix). '
+             'Totality over Z^(n+e) = exhaustiveness query of the path summary; per path: no exception, corrected vector in '
+             'range, surplus entries inactive, matrix valid by the specification; across paths: equal corrected vectors give '
+             'equal matrices, decode of the corrected vector is a fixed point (native), the corrected vectors are exactly '
+             'get_all_design_vectors, onto-ness as a z3 query over all non-negative integer matrices, >= 2 used values per '
+             'declared variable.',
+        note='Trusted: z3 (LIA), spec/conn.py (decided against the real enumerator under C09), symx (native replay per path). '
+             'Bounds: <= 6 declared variables, <= 20000 paths per instance, settings <= 3x3; the quick tier defers instances '
+             'with more than ~2500 estimated paths to the thorough tier (listed in the evidence). Constraint-violation '
+             'imputers: "valid matrix or the documented all(-1) marker", onto-ness not demanded.',
+        technique=TECH+'symbolic design vectors of unbounded integers through every registered encoder/imputer; onto-ness '
+                       'as a solver query over unbounded matrices',
+        ref='DESIGN.md section 4 (C10)'),
     'C13': dict(
         level='model_checking',
         text='PARTIAL. Bounded symbolic execution of the real get_valid_idx_combinations on rows of symbolic indices '
@@ -76,8 +107,6 @@ NOT_APPLICABLE = {
     'C19': 'thread scheduling, timed waits, asynchronous exception injected through ctypes, native blocking: concurrency and FFI',
     'C20': 'inputs are two graphs and dictionaries of node objects; resolution is set/dict look-ups on strings plus graph application; symbolic option indices would only drive list indexing',
     # under construction
-    'C07': 'check under construction in this round (planned: partial claim, see DESIGN.md section 4)',
-    'C10': 'check under construction in this round (planned claim, see DESIGN.md section 4)',
     'C11': 'check under construction in this round (planned claim, see DESIGN.md section 4)',
     'C15': 'check under construction in this round (planned claim, see DESIGN.md section 4)',
 }
